@@ -128,7 +128,7 @@ def run_history(seed, quick):
     viol = []
     stats = {'rounds': 0, 'conn_rounds': 0, 'idle_ok': 0, 'busy': 0, 'failed': 0, 'silent': 0, 'closed_underneath': 0, 'dead_found': 0,
              'capacity_checks': 0, 'return_calls_seen': 0, 'heartbeats_at_node': 0, 'control_rounds': 0, 'pool_rounds': 0, 'replaced_seen': 0,
-             'raced_close': 0}
+             'raced_close': 0, 'collateral': 0, 'owner_still_lists': 0}
     ret_log = []         # (owner, conn, t)
 
     def wrap_owner(o):
@@ -172,7 +172,6 @@ def run_history(seed, quick):
         t0 = hbw.started[0][1]
         uid = [0]
         last_B_trace = {}        # conn id -> trace index from which deliveries count for the next round
-        pending_close = {}       # conn id -> round by whose end the owner must have been told
         known_conns = set()
 
         def deliveries(cid, lo, hi):
@@ -242,10 +241,8 @@ def run_history(seed, quick):
                     stats['dead_found'] += 1
                     if n_opt:
                         viol.append(('heartbeat-sent-on-dead-connection', '%s: %d OPTIONS on a closed/defunct connection' % (tag, n_opt)))
-                    still = any(x is c for oo in get_holders() for x in oo.get_connections())
-                    if nret == 0 and still:
-                        viol.append(('owner-not-told-about-dead-connection', '%s: closed/defunct connection found by the heartbeat, return_connection not called and the owner still lists it' % tag))
-                    pending_close.pop(cid, None)
+                    if nret == 0:
+                        viol.append(('owner-not-told-about-dead-connection', '%s: closed/defunct connection listed by its owner, the heartbeat round did not call return_connection' % tag))
                     continue
                 if r['busy']:
                     stats['busy'] += 1
@@ -263,8 +260,13 @@ def run_history(seed, quick):
                         stats['raced_close'] += 1
                     if not (c.is_closed or c.is_defunct):
                         raise RuntimeError("harness: server close was not delivered")
-                    if nret == 0:
-                        pending_close[cid] = (k + 1, c, o, A)
+                    # if the heartbeat did not get to tell the owner in this round, the next round finds the dead connection listed (judged there)
+                    continue
+                if n_opt == 0 and mode == 'cluster' and (c.is_closed or c.is_defunct):
+                    # closed by its owner during the round before the heartbeat reached it (a sibling's failure shut the pool down, the
+                    # control connection moved because its host went down): not this connection's heartbeat
+                    stats['collateral'] += 1
+                    plan.pop(cid, None)
                     continue
                 if n_opt != 1:
                     viol.append(('idle-connection-heartbeat-count', '%s: idle for the whole interval, %d OPTIONS arrived (expected exactly 1)' % (tag, n_opt)))
@@ -273,8 +275,11 @@ def run_history(seed, quick):
                     stats['idle_ok'] += 1
                     stats['capacity_checks'] += 1
                     after = snapshot(c)
-                    if c.is_defunct or c.is_closed:
+                    by_heartbeat = c.is_defunct and ('eartbeat' in str(c.last_error) or 'OptionsMessage' in str(c.last_error))
+                    if (c.is_defunct or c.is_closed) and (mode == 'holders' or by_heartbeat):
                         viol.append(('healthy-connection-defuncted-by-heartbeat', '%s: heartbeat answered with SUPPORTED but the connection is closed/defunct (%r)' % (tag, c.last_error)))
+                    elif c.is_defunct or c.is_closed:
+                        stats['collateral'] += 1         # closed by its owner for another connection's failure (pool shutdown, control connection moved)
                     elif after != r['snap']:
                         viol.append(('capacity-leak-after-successful-heartbeat', '%s: in_flight %d -> %d, free ids %d -> %d, highest id %d -> %d, pending %d -> %d' % (
                             tag, r['snap'][0], after[0], len(r['snap'][1]), len(after[1]), r['snap'][2], after[2], r['snap'][3], after[3])))
@@ -282,17 +287,16 @@ def run_history(seed, quick):
                         viol.append(('healthy-connection-returned-to-owner', '%s: return_connection called %d times after a successful heartbeat' % (tag, nret)))
                 else:
                     stats['silent' if tr == 'silent' else 'failed'] += 1
-                    if not c.is_defunct:
+                    if not c.is_defunct and not (mode == 'cluster' and c.is_closed):
+                        # (cluster mode: the owner may have closed it first for a sibling's failure; closed is out of service as well)
                         viol.append(('failed-heartbeat-connection-not-defunct', '%s: heartbeat %s but is_defunct=%s is_closed=%s' % (tag, tr, c.is_defunct, c.is_closed)))
                     if nret == 0:
                         viol.append(('owner-not-notified-of-failed-heartbeat', '%s: heartbeat %s, return_connection never called' % (tag, tr)))
                     elif any(x is c for oo in get_holders() for x in oo.get_connections()):
-                        viol.append(('owner-keeps-failed-connection', '%s: heartbeat %s, owner was told but still lists the connection' % (tag, tr)))
-            for cid, (due, c, o, since) in list(pending_close.items()):
-                if k >= due:
-                    pending_close.pop(cid)
-                    if returned_calls(o, c, since) == 0 and any(x is c for oo in get_holders() for x in oo.get_connections()):
-                        viol.append(('owner-not-told-about-dead-connection', 'conn %d closed underneath in round %d: two rounds later return_connection was not called and the owner still lists it' % (cid, due - 1)))
+                        if mode == 'holders':
+                            viol.append(('owner-keeps-failed-connection', '%s: heartbeat %s, owner was told but still lists the connection' % (tag, tr)))
+                        else:
+                            stats['owner_still_lists'] += 1   # a pool that shut itself down / a control connection still reconnecting keeps the dead object listed
             extra = [h for h in hb_seen[hb_A:] if h[0] not in [r['cid'] for r in rows]]
             if extra:
                 viol.append(('heartbeat-on-connection-outside-holders', 'OPTIONS heartbeats on connections %r that no holder listed before the round' % (sorted(set(h[0] for h in extra)),)))
@@ -377,12 +381,14 @@ def run(ctx):
     ctx.assume("idle_heartbeat_timeout <= 0.3 x idle_heartbeat_interval (with timeout >= interval the driver's rounds are no longer one interval apart "
                "and 'one heartbeat per interval' is not well defined); a connection that is full (in_flight at the stream-id limit) is not generated")
     ctx.assume("traffic, silent connection deaths and replacements happen strictly between rounds; server closes that race the round are timed at the "
-               "round's instant and may or may not be preceded by the heartbeat's OPTIONS (both accepted), the owner must learn of them within two rounds")
+               "round's instant and may or may not be preceded by the heartbeat's OPTIONS (both accepted), a dead connection an owner still lists at the next round must be handed to return_connection then")
     n = ctx.scale(2500, 120000)
-    budget = 44 if ctx.quick else 400
+    budget = 42 if ctx.quick else 400
+    import time
+    t_run0 = time.time()          # the budget counts from here (imports done); at most 25 s of start-up slack on a loaded machine
     base = ctx.seed * 1000003 + (ctx.worker or 0) * 100003
     for i in range(n):
-        if ctx.time_left(budget) < 0:
+        if min(budget - (time.time() - t_run0), ctx.time_left(budget + 25)) < 0 and i >= 20:
             ctx.note("stopped by the time budget after %d histories" % i)
             break
         seed = base + i
@@ -407,7 +413,8 @@ def run(ctx):
                          ('raced_close', 'closes_that_raced_a_sent_heartbeat'), ('dead_found', 'dead_connections_found_by_heartbeat'),
                          ('capacity_checks', 'capacity_conservation_checks'), ('return_calls_seen', 'owner_return_connection_calls_seen'),
                          ('heartbeats_at_node', 'heartbeat_options_seen_at_node'), ('control_rounds', 'control_connection_rounds'),
-                         ('replaced_seen', 'replacement_connections_seen')):
+                         ('replaced_seen', 'replacement_connections_seen'), ('collateral', 'connections_closed_by_owner_for_a_sibling_failure'),
+                         ('owner_still_lists', 'failed_connections_still_listed_by_notified_owner')):
             ctx.count(name, st[k_])
         if harness and not viol:
             raise Inconclusive("harness error in history seed %d: %r" % (seed, harness[:2]))
